@@ -718,6 +718,14 @@ PART_B_DIALECT = [
     ("SELECT json.a.b[].c, json.a.b[][]", "clickhouse"),
     ("SELECT IDENTIFIER('f')(1, 2), IDENTIFIER('g')()", "snowflake"),
     ("SELECT JSON_EXTRACT(x, '$[-1]'), JSON_EXTRACT(x, '$[-2]') FROM t FOR UPDATE", "mysql"),
+    # builders that use one argument in two places of the node they build
+    ("SELECT NULLIFZERO(x), ZEROIFNULL(y + 1), NVL2(x, y, x), IFF(x IS NULL, y, x), DECODE(x, 1, x, y) FROM t", "snowflake"),
+    ("SELECT NULLIFZERO(x), ZEROIFNULL(y) FROM t", "exasol"),
+    ("SELECT STRUCT(x), STRUCT(x, 1, y AS col3), NAMED_STRUCT('a', x, 'b', x) FROM t", "spark"),
+    ("SELECT STRUCT(x, t.y) FROM t", "databricks"),
+    ("SELECT * FROM UNNEST(ARRAY<STRUCT<device_id INT64, time DATETIME, signal INT64, state STRING>>[STRUCT(1, DATETIME '2023-11-01 09:34:01', 74, 'INACTIVE'), STRUCT(4, DATETIME '2023-11-01 09:38:01', 80, 'ACTIVE')])", "bigquery"),
+    ("FROM x |> AGGREGATE SUM(x1) AS s GROUP BY x2 AS g", ""),
+    ("FROM x |> AS a_x |> WHERE a_x.x1 > 0", ""),
 ]
 
 
